@@ -950,6 +950,49 @@ func (g *gen) whitespaceCases() []Case {
 }
 
 
+
+// The sub-context pool of the array binders is package-level state. An @for whose condition is truthy on
+// the all-empty probe context makes the optimiser's probe run to the iteration cap (<INF>) when the
+// template is compiled; whatever that leaves behind in the pool is seen by every later evaluation in the
+// process. So: (1) a few such templates, compiled here (optimising and plain builder equal; each costs
+// 1,000,000 probe rounds), with nested binders after the loop in the same template; (2) ordinary nested
+// binder cases, modelled, evaluated after those compiles (and from several goroutines); (3) the same
+// template through the rare binary, optimised vs --no-optimize in separate processes.
+func (g *gen) poolCases() []Case {
+	r := g.r
+	mk := func(vals ...string) Ctx { return Ctx{M: vals, K: map[string]string{}} }
+	lim := fmt.Sprint(r.Range(2, 5))
+	var cases []Case
+	loop := `{@for {0} {lt {0} ` + lim + `} {sumi {0} 1}}`
+	nested := `{@map {1} {@reduce {@split {0} ,} {sumi {0} {1}}}}`
+	for _, t := range []string{
+		loop + `|` + nested,
+		`{@map {1} {@filter {@split {0} ,} {gt {0} 2}}}/` + loop,
+	} {
+		e := &EqIn{Kind: "lib", Tmpl: t, Ctxs: []Ctx{mk("1", "1,2\x003,4\x0010,20,30"), mk("0", "5\x007,1"), mk()}}
+		cases = append(cases, mkEqCase(e, runEq(e), []string{"pool", "for-probe-to-cap"}))
+	}
+	// modelled nested binders, after the compiles above
+	arr := "a\x00bb\x00c"
+	for _, t := range []string{
+		`{@map {0} {@reduce {@ {0} 1 2} {sumi {0} {1}}}}`,
+		`{@map {0} {0}:{@map {@ x {0}} {0}y}:{0}}`,
+		`{@filter {0} {@len {@map {@ p {0}} {0}{0}}}}|{@reduce {0} {@map {@ {0} {1}} <{0}>}}`,
+		`{@map {1} {@map {@ {0} {0}} {@reduce {@ {0} 5} {sumi {0} {1}}}}}`,
+	} {
+		in := Input{Tmpl: t, Inl: t, W: r.Range(3, 8), Ctxs: []Ctx{mk("1\x002\x003", "4\x005"), mk(arr, "7"), mk("", ""), mk()}}
+		cc := compileCase(in)
+		cases = append(cases, mkCase(in, cc.evalPlain(), true, []string{"pool", "binder", "nested-binders"}))
+	}
+	// separate processes: the probe of the optimising run must not change what nested binders give
+	e := &EqIn{Kind: "cli", Funcs: "# no functions\n", Call: loop + `|` + nested, Inlined: loop + `|` + nested, Data: []string{"1", "1,2\x003,4"}}
+	e.Data = []string{"1", "10,20,30"} // (a NUL byte cannot be passed on a command line)
+	e.Call = loop + `|{@map {@ {1} 5,6} {@reduce {@split {0} ,} {sumi {0} {1}}}}`
+	e.Inlined = e.Call
+	cases = append(cases, mkEqCase(e, runEq(e), []string{"pool", "cli", "for-probe-to-cap"}))
+	return cases
+}
+
 // integer folds with two different error conditions among their operands (a zero divisor and a
 // non-integer), the offending operand being a constant, a capture, or a (missing) function parameter:
 // the marker must not depend on what is constant. Modelled cases.
@@ -969,6 +1012,8 @@ func (g *gen) operandOrderCases() []Case {
 		{"", "{divi 1 0 " + bad + "} {divi {0} 0 " + bad + "} {modi 5 {1} " + bad + "}", ""},
 		{"", "{divi " + bad + " 0 1} {modi {0} {1} " + bad + " 0} {sumi 1 " + bad + " {0}} {multi {0} " + bad + "}", ""},
 		{"", "{divi 8 {sumi 1 -1} " + bad + "}{divi 8 {if 1 0 {0}} {1}}", ""},
+		{"", "{divi {0} 0 2} {modi {1} 0} {divi {0} {sumi 1 -1} 3} {divi 7 {1} 0}", ""},
+		{"z {divi {0} {1}}:{modi {0} 2 {1}}\n", "{z {0} 0}", "{divi {0} 0}:{modi {0} 2 0}"},
 	}
 	var cases []Case
 	for _, o := range list {
@@ -1688,6 +1733,7 @@ func c10Gen(r *Rng, n int, tier string) []Case {
 	if tier != "quick" {
 		nTimed = 40
 	}
+	cases = append(cases, g.poolCases()...)
 	cases = append(cases, g.whitespaceCases()...)
 	cases = append(cases, g.operandOrderCases()...)
 	cases = append(cases, g.eqLibCases()...)
@@ -1727,7 +1773,8 @@ func main() {
 			"every template is compiled by funclib.NewKeyBuilderEx(true) and (false) and evaluated on 1-3 generated contexts plus the all-empty context with a look-up-counting context, then 3 rounds from each of 1-8 goroutines sharing the compiled expressions; " +
 			"timed cases ({time now|live|delta} plain, nested, inside a funcs-file function, inside @map) are evaluated twice 1.1 s apart and only 'did the value change' is observed. " +
 			"equality-only cases (no model prediction): 30 templates over helpers that are not modelled (time with auto-detected / given formats, buckettime, timeformat, durations, floats, format, @split/@join/@slice/@select/@range, paths, json, !, byte sizes, repeat/bar/color, lookup/load) with constant, dynamic and mixed text in the arguments and seeded dates/numbers: optimising builder = plain builder on every context, the all-empty one last; " +
-			"10 operand-order cases (divi / modi with a zero divisor and a non-integer operand, the offending operand a constant, a capture, or a present / missing parameter of a funcs-file function; sumi / multi for comparison), modelled: call = inlined body, optimising = plain; " +
+			"7 pool cases (the binders' sub-context pool is package-level state): 2 templates with an @for whose condition is truthy on the all-empty probe context (the optimiser's probe runs 1,000,000 rounds to <INF> at compile time) followed / preceded by nested binders, optimising = plain; then 4 modelled nested-binder templates (@map/@filter/@reduce nested two deep, the outer element used after the inner binder) evaluated after those compiles and from 3-8 goroutines; 1 through the rare binary (optimised vs --no-optimize in separate processes); all random cases of the run come after these compiles too; " +
+			"12 operand-order cases (divi / modi with a zero divisor and a non-integer operand, the offending operand a constant, a capture, or a present / missing parameter of a funcs-file function; sumi / multi for comparison), modelled: call = inlined body, optimising = plain; " +
 			"9 functions-file cases with significant white space (runs of 2-3 blanks and tabs in literal text and inside quoted arguments, leading blanks after the name, blanks before a continuation backslash, a tab instead of the blank after the name), modelled: loader result, call and inlined body byte for byte; " +
 			"14 formula cases ({! ..}, one per operator * & && || + - / | % ^ == < >= <<): a constant operand written in the formula (0 1 2 0.5 (3-3) (0-1) (2*0) (1||0), on either side, bare or inside a larger formula) vs the same constant read from a group, for values of the variable among 5 -3 0 2.5 -0 empty missing text inf -inf nan 1e400, optimising and plain builder: all equal (compile-time folding must give the run-time value); " +
 			"18 sequence cases (time / buckettime / timeformat / timeattr with explicit format and time-zone arguments, named formats, a constant prefix plus a capture, a named key, nested in sumi/timeformat, durations, floats/json/format; 3 with the auto-detected layout): three evaluation sequences per template on ONE compiled expression - the all-empty context (the optimiser's probe value) first, unparseable values, the same value on consecutive evaluations, a bad value first, a seeded shuffle - step by step: optimising = plain = a fresh plain compile = a fresh optimising compile of that step (for the auto-detected layout, which is remembered by design, only optimising = plain); " +
